@@ -218,3 +218,89 @@ Example C05_binding_witness :
   is_ok (parse_authn_response {| base := cfg0; acs_table := tbl_pa; arriving := B_ARTIFACT |} (resp1 (Some acs_art) conf_me)) = true.
 Proof. vm_compute. repeat split; reflexivity. Qed.
 Print Assumptions C05_binding_witness.
+
+(* ---------------------------------------------------------------- the SPELLING of allow_unsolicited
+   The solicited clause in terms of the EFFECTIVE option value: the SP is built from a configuration of
+   any class (SPConfig / Config / IdPConfig ...) whose sp section writes allow_unsolicited in any way
+   (absent, None, a bool, any string, any int) beside any other arguments and role sections; the value
+   goes through Config.load / load_special / getattr and Base.__init__ (Model/Client.v, reused from C02). *)
+From PV Require Import Model.Client Model.C05Opts Proofs.Client_lemmas Proofs.C05Opts_lemmas.
+
+Theorem C05_solicited_effective :
+  forall sc r o, parse_spelled sc r = Ok o -> browser_binding (arriving (s_call sc)) = true ->
+    effective sc = false ->
+    (exists i cf, r_irt r = Some i /\ lookup_str i (outstanding (base (s_call sc))) = Some cf) /\
+    Forall (fun a => exists kept, kept <> [] /\ incl kept (a_confirmations a) /\
+       Forall (fun sc => forall d x, c_method sc = Bearer -> c_data sc = Some d -> d_irt d = Some x -> r_irt r = Some x) kept)
+      (processed r).
+Proof. intros sc r o H Hb He. exact (C05_solicited_call (ecfg_of sc) r o H Hb He). Qed.
+Print Assumptions C05_solicited_effective.
+
+(* the effective value is the coercion of what the sp section says — whatever the configuration class,
+   the other role sections and the other sp arguments: exact true / false strings are the booleans,
+   None and absence are the default False, everything else counts by its truth *)
+Theorem C05_effective_is_coerced :
+  forall dc others rest s, assigned AU rest = None -> effective_unsolicited dc others rest s = coerced s.
+Proof. exact effective_coerced. Qed.
+Print Assumptions C05_effective_is_coerced.
+
+Theorem C05_false_string_is_False :
+  forall dc others rest,
+    effective_unsolicited dc others rest (Val (CStr (s2l "false"))) = effective_unsolicited dc others rest (Val (CBool false)) /\
+    effective_unsolicited dc others rest (Val (CStr (s2l "false"))) = false /\
+    effective_unsolicited dc others rest (Val (CStr (s2l "true"))) = effective_unsolicited dc others rest (Val (CBool true)).
+Proof. intros. split; [apply false_string_is_False|]. split; [apply false_string_refuses|apply true_string_is_True]. Qed.
+Print Assumptions C05_false_string_is_False.
+
+(* exactly these spellings refuse unsolicited responses: absent, None, False, the string false, the empty string, 0 *)
+Theorem C05_refusing_spellings :
+  forall dc others rest s, assigned AU rest = None ->
+    (effective_unsolicited dc others rest s = false <-> means_refuse s).
+Proof. intros dc others rest s Hr. rewrite (effective_coerced dc others rest s Hr). apply coerced_false_iff. Qed.
+Print Assumptions C05_refusing_spellings.
+
+(* the statement of the property for an SP configured with one of those spellings *)
+Theorem C05_solicited_spelled :
+  forall sc r o, parse_spelled sc r = Ok o -> browser_binding (arriving (s_call sc)) = true ->
+    assigned AU (s_rest sc) = None -> means_refuse (s_spell sc) ->
+    (exists i cf, r_irt r = Some i /\ lookup_str i (outstanding (base (s_call sc))) = Some cf) /\
+    Forall (fun a => exists kept, kept <> [] /\ incl kept (a_confirmations a) /\
+       Forall (fun sc => forall d x, c_method sc = Bearer -> c_data sc = Some d -> d_irt d = Some x -> r_irt r = Some x) kept)
+      (processed r).
+Proof.
+  intros sc r o H Hb Hr Hs. apply (C05_solicited_effective sc r o H Hb).
+  unfold effective. now apply C05_refusing_spellings.
+Qed.
+Print Assumptions C05_solicited_spelled.
+
+(* histories: the option is resolved once, when the SP object is made; the n-th call of ANY sequence of
+   calls on that object, over a browser binding, when accepted, answers an outstanding request *)
+Theorem C05_spelled_history :
+  forall sc (calls : list call) n c b r o,
+    nth_error calls n = Some (c, b, r) -> nth_error (run_spelled sc calls) n = Some (Ok o) ->
+    browser_binding b = true -> effective sc = false ->
+    exists i cf, r_irt r = Some i /\ lookup_str i (outstanding c) = Some cf.
+Proof.
+  intros sc calls n c b r o Hn Hr Hb He. rewrite nth_error_run_spelled, Hn in Hr. injection Hr as Hr.
+  exact (proj1 (C05_solicited_call {| base := with_unsolicited (effective sc) c; acs_table := acs_table (s_call sc); arriving := b |} r o Hr Hb He)).
+Qed.
+Print Assumptions C05_spelled_history.
+
+(* non-vacuity and the situation itself: the SP of C05_witness configured with the STRING false
+   accepts the solicited response and refuses the same response once its request is no longer
+   outstanding; configured with the string False (capital F: not coerced, a non-empty string) it accepts it *)
+Example C05_spelling_witness :
+  let sc := fun s outs => {| s_call := {| base := {| entity_id := me; return_addrs := None; wrs := false; was := false; waors := false;
+                 allow_unsolicited := true; dest_regex_set := false; dest_regex_match := false; slack := 0; now := 1000000;
+                 asynch := false; outstanding := outs; conv_info := None; test_mode := false |};
+               acs_table := tbl_pa; arriving := B_POST |};
+             s_class := s2l "sp"; s_others := []; s_rest := [(WRS, CBool false)]; s_spell := s |} in
+  let rq := [(s2l "req-1", s2l "/")] in
+  is_ok (parse_spelled (sc (Val (CStr (s2l "false"))) rq) (resp1 (Some acs) conf_me)) = true /\
+  is_ok (parse_spelled (sc (Val (CStr (s2l "false"))) []) (resp1 (Some acs) conf_me)) = false /\
+  is_ok (parse_spelled (sc Absent []) (resp1 (Some acs) conf_me)) = false /\
+  is_ok (parse_spelled (sc (IntVal 0) []) (resp1 (Some acs) conf_me)) = false /\
+  is_ok (parse_spelled (sc (Val (CStr (s2l "true"))) []) (resp1 (Some acs) conf_me)) = true /\
+  is_ok (parse_spelled (sc (Val (CStr (s2l "False"))) []) (resp1 (Some acs) conf_me)) = true.
+Proof. vm_compute. repeat split. Qed.
+Print Assumptions C05_spelling_witness.
